@@ -6,7 +6,12 @@ claims = {}
 def claim(pid, text, note, technique, ref):
     claims[pid] = dict(text=text, note=note, technique=technique, ref=ref)
 
+ADDED = {}
+TECH_SUFFIX = ""
 exec(open(V+'/tools/claims.py').read())
+for _pid, _c in claims.items():
+    _c['text'] = _c['text'] + ADDED.get(_pid, "")
+    _c['technique'] = _c['technique'] + TECH_SUFFIX
 
 props=[json.loads(l) for l in open(V+'/properties.jsonl')]
 m={
